@@ -1256,6 +1256,32 @@ func c12OrderPaired(c *Ctx, ri *registryInfo, accs []Access) {
 				}
 				continue
 			}
+			// a presence accessor: `if !m.has(k)` where has returns the found-flag of its lookup
+			{
+				cnd, negc := g.If.Cond, false
+				if u, isNot := cnd.(*ssa.UnOp); isNot && u.Op == token.NOT {
+					cnd, negc = u.X, true
+				}
+				if pc, isCall := cnd.(*ssa.Call); isCall && ir.TypeStr(pc.Type()) == "bool" {
+					elemIsBool := false
+					if ml, ok := mapLookupOf(c, pc); ok {
+						if mt, isMap := ml.typ.Underlying().(*types.Map); isMap {
+							elemIsBool = ir.TypeStr(mt.Elem()) == "bool"
+						}
+					}
+					// (the accessor's only result is a bool and the map's elements are not: it is the found-flag)
+					if ml, ok := mapLookupOf(c, pc); ok && !elemIsBool {
+						if (g.Branch && negc) || (!g.Branch && !negc) {
+							if ml.field == stored && samePath(ml.key, key, 0) {
+								guardedBy = true
+							} else {
+								other = ml.field
+							}
+						}
+						continue
+					}
+				}
+			}
 			ex, ok := ir.Unwrap(g.If.Cond).(*ssa.Extract)
 			neg := false
 			if !ok {
